@@ -356,6 +356,20 @@ def lifecycle_case(clsname, queued, rng):
         return out
     if order != [m.name for m in mach.models]:
         bad('dispatch-not-each-once-in-order', 'C10.dispatch', got=order, expected=[m.name for m in mach.models])
+    # the machine (with its models) may go through pickle first: the restored machine must not keep its models alive
+    # in left-over tables either
+    if rng.random() < 0.3 and not any('<locals>' in type(m).__qualname__ for m in models):
+        import pickle
+        try:
+            mach = pickle.loads(pickle.dumps(mach))
+        except Exception as e:      # noqa
+            bad('machine-not-picklable', 'C10.lifecycle', err=repr(e)[:160])
+            return out
+        models = list(mach.models)
+        late = fresh = again = None
+        info['pickled'] = True
+        for m in models:
+            m.seen = order
     # removal: not dispatched to any more, collectable
     victim = rng.choice(models)
     models.remove(victim)
